@@ -414,6 +414,12 @@ class VerifyTask:
         if ov and key in ov:
             return ov[key]
         c = REGISTRY.get(key)
+        # `receiver_fields` of a method contract: it describes the receiver through these fields, so it is only used at
+        # call sites whose receiver model has them all; another contract file that models a SUBCLASS instance without
+        # them (and lists the method in its `inline=`) keeps executing the body, as before the contract existed
+        need = getattr(c, "receiver_fields", None) if c is not None else None
+        if need and isinstance(getattr(f, "bound", None), SObj) and not all(n in f.bound.fields for n in need):
+            return None
         return c
 
     def may_inline(self, key, f):
